@@ -64,31 +64,31 @@ IsA85Kind(dk) == dk \in {"A85", "ASCII85Decode", "A85Fl"}   \* the OUTER encodin
 Term(dk, style) == (IF IsA85Kind(dk) THEN A85END ELSE <<>>) \o (IF style = "eol" \/ IsA85Kind(dk) THEN <<bLF>> ELSE <<>>) \o EI
 
 VARIABLES data, dk, style, foll, B, cut, dev,      \* the case
+          C, cp, ptoks,                            \* derived once: the content bytes, the cut offset, the tokens of `BI ... ID `
           phase, ti, ops, inl, arr,                \* dictionary phase: token index, operand stack, start marks
           tg, p, e, mi, acc,                       \* matcher: target, read position, buffer end, index i, collected bytes
           img, rest                                \* results: captured data, the tokens that follow
-vars == <<data, dk, style, foll, B, cut, dev, phase, ti, ops, inl, arr, tg, p, e, mi, acc, img, rest>>
-case == <<data, dk, style, foll, B, cut, dev>>
+vars == <<data, dk, style, foll, B, cut, dev, C, cp, ptoks, phase, ti, ops, inl, arr, tg, p, e, mi, acc, img, rest>>
 
 \* ------------------------------------------------------------------ the content and its division into streams
 Head1 == Pre(dk) \o <<bSP>>
 Written == data \o Term(dk, style)                  \* what the writer put between `ID ` and the followers
-C == Head1 \o Written \o foll
+Content == Head1 \o Written \o foll
 LenPre == Len(Pre(dk))
 DataStart == LenPre + 1                             \* absolute offset of the first data byte
 MarkerAt == DataStart + Len(Written) - 2            \* absolute offset of the E of the writer's EI
-CutPos == CASE cut = "none" -> 0
+CutAt == CASE cut = "none" -> 0
             [] cut = "afterID" -> LenPre                                    \* ID | SP data
             [] cut = "afterIDws" -> DataStart                               \* ID SP | data
             [] cut = "beforeEI" -> MarkerAt                                 \* data EOL | EI
             [] cut = "afterEIws" -> MarkerAt + 3                            \* EI SP | followers
-CutOK == cut = "none" \/ (CutPos > 0 /\ CutPos < Len(C))
-StreamEnd(q) == IF CutPos > 0 /\ q < CutPos THEN CutPos ELSE Len(C)      \* end of the stream that holds offset q
-StreamBase(q) == IF CutPos > 0 /\ q >= CutPos THEN CutPos ELSE 0
+CutOK == cut = "none" \/ (CutAt > 0 /\ CutAt < Len(Content))
+StreamEnd(q) == IF cp > 0 /\ q < cp THEN cp ELSE Len(C)      \* end of the stream that holds offset q
+StreamBase(q) == IF cp > 0 /\ q >= cp THEN cp ELSE 0
 
 \* ------------------------------------------------------------------ BI dictionary
 Obj(t, v, a) == [t |-> t, v |-> v, a |-> a]
-PreToks == RefOut(Head1, {})                        \* tokens of `BI ... ID ` (PSLexOps)
+PreToks == ptoks                                    \* RefOut(Head1, {}): tokens of `BI ... ID ` (PSLexOps)
 IsKw(tok, bytes) == tok.k = "kw" /\ tok.v = bytes
 \* one step of the stack parser over the dictionary tokens: s = [ti, ops, inl, arr]
 DictStep(s) ==
@@ -122,6 +122,7 @@ SeekTarget(d) == IF "SeekOtherStream" \in d
 InitCase == /\ B \in BufSizes /\ dk \in DictKinds /\ style \in Styles /\ foll \in Followers /\ cut \in Cuts /\ dev \in DevChoices
             /\ \E n \in 0..MaxLen : data \in [1..n -> Alphabet]
             /\ CutOK /\ (IsA85Kind(dk) => style = "eol")
+            /\ C = Content /\ cp = CutAt /\ ptoks = RefOut(Head1, {})
 Init == /\ InitCase
         /\ img = <<>> /\ rest = <<>> /\ acc = <<>> /\ mi = 0
         /\ IF FastDict
@@ -134,12 +135,12 @@ Init == /\ InitCase
 DS == [ti |-> ti, ops |-> ops, inl |-> inl, arr |-> arr]
 ADictTok == /\ phase = "dict" /\ ~AtID(DS)
             /\ LET s == DictStep(DS) IN ti' = s.ti /\ ops' = s.ops /\ inl' = s.inl /\ arr' = s.arr
-            /\ UNCHANGED <<data, dk, style, foll, B, cut, dev, phase, tg, p, e, mi, acc, img, rest>>
+            /\ UNCHANGED <<data, dk, style, foll, B, cut, dev, C, cp, ptoks, phase, tg, p, e, mi, acc, img, rest>>
 AID == /\ phase = "dict" /\ AtID(DS)
        /\ LET objs == InlineObjs(ops, inl) IN
           IF Len(objs) % 2 # 0 THEN phase' = "typeerror" /\ UNCHANGED <<tg, p, e>>
           ELSE phase' = "scan" /\ tg' = TargetOf(objs) /\ p' = SeekTarget(dev) /\ e' = SeekTarget(dev)
-       /\ UNCHANGED <<data, dk, style, foll, B, cut, dev, ti, ops, inl, arr, mi, acc, img, rest>>
+       /\ UNCHANGED <<data, dk, style, foll, B, cut, dev, C, cp, ptoks, ti, ops, inl, arr, mi, acc, img, rest>>
 
 \* ------------------------------------------------------------------ get_inline_data
 Scanning == phase = "scan" /\ mi <= Len(tg)
@@ -147,19 +148,19 @@ AtEOF == p >= e /\ e >= Len(C)
 \* fillbuf(): the buffer never spans two streams; an exhausted stream is followed by the next one
 AMRefill == /\ Scanning /\ p >= e /\ e < Len(C)
             /\ p' = e /\ e' = Min(e + B, StreamEnd(e))
-            /\ UNCHANGED <<data, dk, style, foll, B, cut, dev, phase, ti, ops, inl, arr, tg, mi, acc, img, rest>>
+            /\ UNCHANGED <<data, dk, style, foll, B, cut, dev, C, cp, ptoks, phase, ti, ops, inl, arr, tg, mi, acc, img, rest>>
 AMFind == /\ Scanning /\ mi = 0 /\ p < e
           /\ LET j == First(C, p, e, {tg[1]}) IN
              IF j < e THEN acc' = acc \o Slice(C, p, j + 1) /\ p' = j + 1 /\ mi' = 1
              ELSE acc' = acc \o Slice(C, p, e) /\ p' = e /\ mi' = 0
-          /\ UNCHANGED <<data, dk, style, foll, B, cut, dev, phase, ti, ops, inl, arr, tg, e, img, rest>>
+          /\ UNCHANGED <<data, dk, style, foll, B, cut, dev, C, cp, ptoks, phase, ti, ops, inl, arr, tg, e, img, rest>>
 AMChar == /\ Scanning /\ mi > 0 /\ p < e
           /\ LET c == C[p + 1] IN
              /\ acc' = Append(acc, c) /\ p' = p + 1
              /\ mi' = IF (mi >= Len(tg) /\ c \in SPACES) \/ (mi < Len(tg) /\ c = tg[mi + 1]) THEN mi + 1
                       ELSE IF "NoRestart" \notin dev /\ c = tg[1] THEN 1      \* the mismatching byte may itself begin the marker
                       ELSE 0
-          /\ UNCHANGED <<data, dk, style, foll, B, cut, dev, phase, ti, ops, inl, arr, tg, e, img, rest>>
+          /\ UNCHANGED <<data, dk, style, foll, B, cut, dev, C, cp, ptoks, phase, ti, ops, inl, arr, tg, e, img, rest>>
 
 \* the trailing-EOL pattern  re.sub(rb"(\x0d\x0a|[\x0d\x0a])$", b"", data)  with its two quirks as switches;
 \* the intended design removes exactly one end-of-line character
@@ -178,14 +179,14 @@ Finish(body) ==
   /\ phase' = "resume"
 AMFinish == /\ phase = "scan" /\ mi > Len(tg)
             /\ Finish(SubSeq(acc, 1, Len(acc) - (Len(tg) + 1)))
-            /\ UNCHANGED <<data, dk, style, foll, B, cut, dev, ti, ops, inl, arr, tg, p, e, mi, acc, rest>>
+            /\ UNCHANGED <<data, dk, style, foll, B, cut, dev, C, cp, ptoks, ti, ops, inl, arr, tg, p, e, mi, acc, rest>>
 \* end of the last stream while scanning: fillfp raises PSEOF, which ends the page's interpretation.
 \* Intended: the end of the content delimits a complete marker like white space does.
 AMEof == /\ Scanning /\ AtEOF
          /\ IF mi = Len(tg) /\ "EOFNotDelim" \notin dev
             THEN Finish(SubSeq(acc, 1, Len(acc) - Len(tg)))
             ELSE phase' = "eof" /\ UNCHANGED img
-         /\ UNCHANGED <<data, dk, style, foll, B, cut, dev, ti, ops, inl, arr, tg, p, e, mi, acc, rest>>
+         /\ UNCHANGED <<data, dk, style, foll, B, cut, dev, C, cp, ptoks, ti, ops, inl, arr, tg, p, e, mi, acc, rest>>
 
 \* tokenising resumes in the main state right behind the marker's delimiter (seek() reset the tokenizer);
 \* for ASCII85 the keyword EI is still in the stream and is tokenised like any operator
@@ -196,7 +197,7 @@ AResume == /\ phase = "resume"
                   r == Run(s0, C, B, {}) IN
               rest' = (IF tg = EI THEN <<[k |-> "kw", v |-> EI]>> ELSE <<>>) \o KV(r.out)
            /\ phase' = "done"
-           /\ UNCHANGED <<data, dk, style, foll, B, cut, dev, ti, ops, inl, arr, tg, p, e, mi, acc, img>>
+           /\ UNCHANGED <<data, dk, style, foll, B, cut, dev, C, cp, ptoks, ti, ops, inl, arr, tg, p, e, mi, acc, img>>
 
 Next == ADictTok \/ AID \/ AMRefill \/ AMFind \/ AMChar \/ AMFinish \/ AMEof \/ AResume
 Spec == Init /\ [][Next]_vars
@@ -243,6 +244,6 @@ DictWellFormed == phase # "typeerror"
 
 EmitTerminal ==
   Terminal => PrintT("@@" \o ToJson([data |-> data, dk |-> dk, style |-> style, foll |-> foll, B |-> B, cut |-> cut,
-                                       cutpos |-> CutPos, dev |-> dev, phase |-> phase, img |-> img, rest |-> rest,
+                                       cutpos |-> cp, dev |-> dev, phase |-> phase, img |-> img, rest |-> rest,
                                        content |-> C, indomain |-> InDomain, a85 |-> (tg = A85END)]))
 =============================================================================
